@@ -16,6 +16,8 @@ struct Entry {
     bounds: Vec<usize>,
     /// family id: entries derived from a common ancestor share storage
     family: u32,
+    /// upper bound on the number of chunks (self-concatenation doubles it even for empty messages)
+    chunks: usize,
 }
 
 fn pos(e: &mut Entropy, len: usize, bounds: &[usize]) -> (usize, bool) {
@@ -117,7 +119,7 @@ impl Check for MessageOps {
                             let s: String = bytes.iter().map(|b| (b % 95 + 32) as char).collect();
                             let bytes2 = s.as_bytes().to_vec();
                             let m = if e.bool() { Message::new(s.as_str()) } else { Message::new(s.clone()) };
-                            pool.push(Entry { m, v: bytes2, bounds: vec![], family: next_family });
+                            pool.push(Entry { m, v: bytes2, bounds: vec![], family: next_family, chunks: 1 });
                             next_family += 1;
                             ops_desc.push(format!("new_str(len {})", s.len()));
                             if pool.len() > 8 {
@@ -132,7 +134,7 @@ impl Check for MessageOps {
                             if bytes.len() >= 4 {
                                 let arr: [u8; 4] = [bytes[0], bytes[1], bytes[2], bytes[3]];
                                 let m = if e.bool() { Message::from(arr) } else { Message::new(&arr) };
-                                pool.push(Entry { m, v: arr.to_vec(), bounds: vec![], family: next_family });
+                                pool.push(Entry { m, v: arr.to_vec(), bounds: vec![], family: next_family, chunks: 1 });
                                 next_family += 1;
                                 ops_desc.push("new_array4".into());
                                 if pool.len() > 8 {
@@ -150,7 +152,7 @@ impl Check for MessageOps {
                         empty_chunk = true;
                     }
                     ops_desc.push(format!("new(form {form}, len {})", bytes.len()));
-                    pool.push(Entry { m, v: bytes, bounds: vec![], family: next_family });
+                    pool.push(Entry { m, v: bytes, bounds: vec![], family: next_family, chunks: 1 });
                     next_family += 1;
                 }
                 1 => {
@@ -164,6 +166,7 @@ impl Check for MessageOps {
                         alias_then_mutation = true;
                     }
                     en.m.header(h.clone());
+                    en.chunks += 1;
                     let hl = h.len();
                     let mut nb: Vec<usize> = en.bounds.iter().map(|b| b + hl).collect();
                     nb.push(hl);
@@ -176,11 +179,16 @@ impl Check for MessageOps {
                 2 => {
                     let i = e.choose(pool.len());
                     let j = e.choose(pool.len());
+                    if pool[i].v.len() + pool[j].v.len() > 1 << 16 || pool[i].chunks + pool[j].chunks > 4096 {
+                        // repeated self-concatenation doubles the size each time: keep cases small
+                        continue;
+                    }
                     let moved = i != j && e.bool();
                     let (om, ov, ob, ofam) = {
                         let o = &pool[j];
                         (o.m.clone(), o.v.clone(), o.bounds.clone(), o.family)
                     };
+                    let oc = pool[j].chunks;
                     if !moved {
                         aliased_families.push(ofam);
                     }
@@ -190,6 +198,7 @@ impl Check for MessageOps {
                     }
                     let l0 = en.v.len();
                     en.m.concatenate(om);
+                    en.chunks += oc;
                     en.v.extend_from_slice(&ov);
                     en.bounds.push(l0);
                     en.bounds.extend(ob.iter().map(|b| b + l0));
@@ -292,7 +301,8 @@ impl Check for MessageOps {
                     en.bounds = en.bounds.iter().filter(|x| **x > k).map(|x| x - k).collect();
                     let fam = en.family;
                     aliased_families.push(fam);
-                    pool.push(Entry { m: prefix, v: pv, bounds: pb, family: fam });
+                    let pc = en.chunks;
+                    pool.push(Entry { m: prefix, v: pv, bounds: pb, family: fam, chunks: pc });
                     ops_desc.push(format!("cut({i}, {k} of {len})"));
                 }
                 5 => {
@@ -314,7 +324,7 @@ impl Check for MessageOps {
                 6 => {
                     let i = e.choose(pool.len());
                     let en = &pool[i];
-                    let c = Entry { m: en.m.clone(), v: en.v.clone(), bounds: en.bounds.clone(), family: en.family };
+                    let c = Entry { m: en.m.clone(), v: en.v.clone(), bounds: en.bounds.clone(), family: en.family, chunks: en.chunks };
                     aliased_families.push(en.family);
                     pool.push(c);
                     ops_desc.push(format!("clone({i})"));
